@@ -69,6 +69,13 @@ fn is_success(v: &Value) -> Option<bool> {
     match v["type"].as_str() { Some("success") => Some(true), Some("failure") => Some(false), _ => None }
 }
 
+fn chain<E: std::error::Error>(e: E) -> String {
+    let mut s = e.to_string();
+    let mut src = e.source();
+    while let Some(x) = src { s.push_str(": "); s.push_str(&x.to_string()); src = x.source(); }
+    s
+}
+
 fn guard<T>(f: impl FnOnce() -> T) -> Result<T, String> {
     catch_unwind(AssertUnwindSafe(f)).map_err(crate::c02::panic_msg)
 }
@@ -263,6 +270,24 @@ pub fn gen_world_s(r: &mut Rng) -> World {
     World { entities, uids_present: present, principal, action, resource, context }
 }
 
+/// `gen::gen_world` minus what no JSON entity document can express: action entities with non-action ancestors
+/// (`Entities::from_json_value` rejects them with or without a schema)
+pub fn gen_world_json(r: &mut Rng) -> World {
+    let mut w = gen::gen_world(r);
+    let is_action = |u: &EntityUID| u.entity_type().to_string() == "Action";
+    let mut ents: Vec<Entity> = w.entities.iter().cloned().collect();
+    for e in ents.iter_mut() {
+        if is_action(e.uid()) {
+            let bad: Vec<EntityUID> = e.ancestors().filter(|a| !is_action(a)).cloned().collect();
+            for b in bad { e.remove_parent(&b); e.remove_indirect_ancestor(&b); }
+        }
+    }
+    // recompute the closure from the remaining direct parents
+    for e in ents.iter_mut() { e.remove_all_indirect_ancestors(); }
+    w.entities = Entities::from_entities(ents, None::<&NoEntitiesSchema>, TCComputation::ComputeNow, Extensions::all_available()).expect("still acyclic");
+    w
+}
+
 pub fn uid_json(r: &mut Rng, u: &EntityUID) -> Value {
     let (t, i) = (u.entity_type().to_string(), AsRef::<str>::as_ref(u.eid()).to_string());
     if r.chance(50) { json!({"type": t, "id": i}) } else { json!({"__entity": {"type": t, "id": i}}) }
@@ -379,7 +404,10 @@ pub fn gen_specs(r: &mut Rng, g: &mut ExprGen, w: &World, max: usize) -> Vec<Pol
     (0..n).map(|i| {
         let eff = if r.chance(65) { Effect::Permit } else { Effect::Forbid };
         let outcome = if r.chance(50) { 3 } else { r.below(3) as u32 };
-        { let t = r.chance(30); c01::gen_policy(r, g, w, &format!("p{i}"), eff, outcome, t) }
+        let t = r.chance(30);
+        let mut s = c01::gen_policy(r, g, w, &format!("p{i}"), eff, outcome, t);
+        if let Some((None, None)) = s.link { s.link = None; } // no slot: a static policy (Template::parse rejects it)
+        s
     }).collect()
 }
 
@@ -391,7 +419,7 @@ pub fn ref_auth(wj: &WorldJson, schema: &Option<SchemaIn>, validate: bool, ps: &
     let r = cp::EntityUid::from_json(wj.resource.clone()).map_err(|e| e.to_string())?;
     let ctx = cp::Context::from_json_value(wj.context.clone(), schema.as_ref().map(|s| (s, &a))).map_err(|e| e.to_string())?;
     let req = cp::Request::new(p, a, r, ctx, if validate { schema.as_ref() } else { None }).map_err(|e| e.to_string())?;
-    let ents = cp::Entities::from_json_value(wj.entities.clone(), schema.as_ref()).map_err(|e| e.to_string())?;
+    let ents = cp::Entities::from_json_value(wj.entities.clone(), schema.as_ref()).map_err(chain)?;
     let ps = ps.as_ref().map_err(|e| e.clone())?;
     Ok(canon_api(&cp::Authorizer::new().is_authorized(&req, ps, &ents)))
 }
@@ -452,7 +480,7 @@ fn mutate_world(r: &mut Rng, w: &mut World, wj: &mut WorldJson) -> &'static str 
 
 fn auth_case(r: &mut Rng, g: &mut ExprGen, out: &mut Out, idx: u64) {
     let with_schema = r.chance(55);
-    let mut w = if with_schema { gen_world_s(r) } else { gen::gen_world(r) };
+    let mut w = if with_schema { gen_world_s(r) } else { gen_world_json(r) };
     let mut wj = match world_json(r, &w) { Ok(x) => x, Err(e) => { out.count("world_not_serializable"); out.count(&format!("unser_{}", e.chars().take(40).collect::<String>())); return; } };
     let (schema, sdesc) = if with_schema {
         let spec = { let full = r.chance(35); gen_schema_spec(r, idx as usize % 10, full) };
@@ -474,7 +502,7 @@ fn auth_case(r: &mut Rng, g: &mut ExprGen, out: &mut Out, idx: u64) {
         let Some(got) = ffi_auth(&call, out, &desc) else { continue };
         let want = match guard(|| ref_auth(&wj, &schema, validate, &doc.reference)) {
             Ok(Ok(s)) => s,
-            Ok(Err(_)) => "failure".to_string(),
+            Ok(Err(e)) => { out.count(&format!("auth_failure_because_{}", e.chars().take(if e.starts_with("error during entity") { 140 } else { 48 }).collect::<String>().replace('\n', " "))); "failure".to_string() }
             Err(p) => { out.propfail("panic in the API route", &desc, &p); continue; }
         };
         out.count("auth_calls");
@@ -867,8 +895,10 @@ fn history_case(r: &mut Rng, g: &mut ExprGen, out: &mut Out, prefix: &str) {
     let (mut req_ops, mut replies, mut descs) = (Vec::new(), Vec::new(), Vec::new());
     let mut interesting = (false, false, false); // re-registration, failed preparse over an existing entry, stateful read after those
     for _ in 0..len {
-        match r.below(10) {
-            0..=2 => {
+        // until something is registered, registrations are more likely than reads
+        let kind = if shadow_p.is_empty() && r.chance(50) { 0 } else if shadow_s.is_empty() && r.chance(25) { 7 } else { r.below(20) };
+        match kind {
+            0..=5 => {
                 let name = r.pick(&pnames).clone();
                 let specs = gen_specs(r, g, &w0, 3);
                 let corrupt = if r.chance(30) { 1 + r.below(5) as u32 } else { 0 };
@@ -889,7 +919,7 @@ fn history_case(r: &mut Rng, g: &mut ExprGen, out: &mut Out, prefix: &str) {
                 if verdict { shadow_p.insert(name, doc); }
                 ptag += 1;
             }
-            3..=4 => {
+            6..=9 => {
                 let name = r.pick(&snames).clone();
                 let spec = gen_schema_spec(r, stag, true);
                 let doc = if r.chance(30) {
@@ -911,8 +941,12 @@ fn history_case(r: &mut Rng, g: &mut ExprGen, out: &mut Out, prefix: &str) {
                 stag += 1;
             }
             _ => {
-                let pname = if r.chance(8) { format!("{prefix}missing") } else { r.pick(&pnames).clone() };
-                let sname = if r.chance(40) { None } else if r.chance(8) { Some(format!("{prefix}missing")) } else { Some(r.pick(&snames).clone()) };
+                // mostly names that have an entry, sometimes one that has none (never registered / only failed registrations)
+                let known = |r: &mut Rng, pool: &Vec<String>, have: Vec<&String>| -> String {
+                    if !have.is_empty() && r.chance(75) { let mut h: Vec<&String> = have; h.sort(); (*r.pick(&h)).clone() } else { r.pick(pool).clone() }
+                };
+                let pname = if r.chance(6) { format!("{prefix}missing") } else { known(r, &pnames, shadow_p.keys().collect()) };
+                let sname = if r.chance(if shadow_s.is_empty() { 70 } else { 30 }) { None } else if r.chance(6) { Some(format!("{prefix}missing")) } else { Some(known(r, &snames, shadow_s.keys().collect())) };
                 let validate = r.chance(50);
                 let w = gen_world_s(r);
                 let Ok(wj) = world_json(r, &w) else { out.count("world_not_serializable"); return };
@@ -1076,7 +1110,7 @@ fn est_multiset(ps: &cp::PolicySet) -> Vec<String> {
 
 fn cli_authorize(r: &mut Rng, g: &mut ExprGen, out: &mut Out, cli: &std::path::Path, dir: &std::path::Path, idx: u64) {
     let with_schema = r.chance(50);
-    let mut w = if with_schema { gen_world_s(r) } else { gen::gen_world(r) };
+    let mut w = if with_schema { gen_world_s(r) } else { gen_world_json(r) };
     let Ok(mut wj) = world_json(r, &w) else { out.count("world_not_serializable"); return };
     let spec = { let full = r.chance(40); gen_schema_spec(r, idx as usize % 10, full) };
     let cedar_schema = r.chance(50);
@@ -1268,7 +1302,7 @@ fn cli_translate(r: &mut Rng, g: &mut ExprGen, out: &mut Out, cli: &std::path::P
             let want = cp::PolicySet::from_json_value(j.clone()).map_err(|e| e.to_string()).and_then(|p| p.to_cedar().ok_or("links".to_string()));
             match (&want, run.code) {
                 (Ok(wt), Some(0)) => {
-                    let same = match (cp::PolicySet::from_str(&run.stdout), cp::PolicySet::from_str(wt)) { (Ok(a), Ok(b)) => est_multiset(&a) == est_multiset(&b) && est_multiset(&a) == est_multiset(ps), _ => false };
+                    let same = match (cp::PolicySet::from_str(&run.stdout), cp::PolicySet::from_str(wt)) { (Ok(a), Ok(b)) => est_multiset(&a) == est_multiset(&b), _ => false };
                     if !same { out.propfail("cedar translate-policy json-to-cedar: converted document differs from the API's after re-parsing", &desc, &format!("stdout {:?} ; api {wt:?}", run.stdout)); }
                 }
                 (Err(_), Some(1)) => out.count("cli_translate_policy_both_fail"),
@@ -1326,21 +1360,45 @@ pub fn run_cli(args: &Args, out: &mut Out) {
         eprintln!("cedar CLI binary not found at {} (run ./setup.sh or set CEDAR_CLI)", cli.display());
         std::process::exit(4);
     }
+    // process start-up dominates: run the cases on WORKERS threads; case i (its own forked Rng, fixed up front)
+    // goes to worker i % WORKERS, results are merged in worker order, so a run is a function of the seed
+    const WORKERS: u64 = 8;
     let mut rng = Rng::new(args.seed ^ 0xC19D);
-    let mut g = ExprGen::new(6);
+    let forks: Vec<Rng> = (0..args.n).map(|_| rng.fork()).collect();
     let base = std::path::Path::new(&args.out).join("cli");
-    for i in 0..args.n {
-        let mut cr = rng.fork();
-        let dir = base.join(format!("{}", i % 64)); // inputs of the most recent runs stay on disk
-        let _ = std::fs::remove_dir_all(&dir);
-        std::fs::create_dir_all(&dir).expect("mkdir");
-        match cr.below(20) {
-            0..=9 => cli_authorize(&mut cr, &mut g, out, &cli, &dir, i),
-            10..=13 => cli_validate(&mut cr, &mut g, out, &cli, &dir, i),
-            14..=15 => cli_check_parse(&mut cr, &mut g, out, &cli, &dir, i),
-            16..=18 => cli_translate(&mut cr, &mut g, out, &cli, &dir, i),
-            _ => cli_format(&mut cr, &mut g, out, &cli, &dir),
+    let mut handles = Vec::new();
+    for wk in 0..WORKERS {
+        let mine: Vec<(u64, Rng)> = forks.iter().cloned().enumerate().map(|(i, f)| (i as u64, f)).filter(|(i, _)| i % WORKERS == wk).collect();
+        let (cli, base) = (cli.clone(), base.clone());
+        handles.push(std::thread::Builder::new().stack_size(128 << 20).spawn(move || {
+            let mut out = Out::default();
+            let mut g = ExprGen::new(6);
+            for (i, mut cr) in mine {
+                let dir = base.join(format!("{}", i % 64)); // inputs of the most recent runs stay on disk
+                let _ = std::fs::remove_dir_all(&dir);
+                std::fs::create_dir_all(&dir).expect("mkdir");
+                match cr.below(20) {
+                    0..=9 => cli_authorize(&mut cr, &mut g, &mut out, &cli, &dir, i),
+                    10..=13 => cli_validate(&mut cr, &mut g, &mut out, &cli, &dir, i),
+                    14..=15 => cli_check_parse(&mut cr, &mut g, &mut out, &cli, &dir, i),
+                    16..=18 => cli_translate(&mut cr, &mut g, &mut out, &cli, &dir, i),
+                    _ => cli_format(&mut cr, &mut g, &mut out, &cli, &dir),
+                }
+                out.cases += 1;
+            }
+            out
+        }).expect("spawn worker"));
+    }
+    for h in handles {
+        match h.join() {
+            Ok(o) => {
+                out.propfail.extend(o.propfail);
+                for (k, v) in o.stats { out.add(&k, v); }
+                out.nontrivial.extend(o.nontrivial);
+                for s in o.samples { out.sample(s); }
+                out.cases += o.cases;
+            }
+            Err(_) => { eprintln!("cli worker panicked"); std::process::exit(3); }
         }
-        out.cases += 1;
     }
 }
